@@ -73,6 +73,22 @@ pub proof fn lemma_lex_trans(a: Seq<u8>, b: Seq<u8>, c: Seq<u8>)
     }
 }
 
+// the order is total: two different keys are ordered one way or the other
+pub proof fn lemma_lex_total(a: Seq<u8>, b: Seq<u8>)
+    ensures a == b || lex_lt(a, b) || lex_lt(b, a)
+    decreases a.len()
+{
+    if a.len() > 0 && b.len() > 0 && a[0] == b[0] {
+        lemma_lex_total(a.drop_first(), b.drop_first());
+        if a.drop_first() == b.drop_first() {
+            assert(a =~= seq![a[0]] + a.drop_first());
+            assert(b =~= seq![b[0]] + b.drop_first());
+        }
+    } else if a.len() == 0 && b.len() == 0 {
+        assert(a =~= b);
+    }
+}
+
 // assumed specifications of core/src/str.rs:178-214 (`Str == Str` is `get() == get()`,
 // `Str` compared with `Str` is `str::cmp`, i.e. lexicographic on the bytes)
 impl<'a, 'b> PartialEq<Str<'b>> for Str<'a> {
